@@ -12,6 +12,7 @@
   `Cycles()` entry changes the generated definitions and re-opens these proofs.
 -/
 import MajoranaVerif.Proofs.SeqMachine
+import MajoranaVerif.Proofs.Mvp3Cycles
 open GoInt Model.Seq Proofs.Seq
 
 namespace Props.C12
@@ -174,5 +175,38 @@ example :
     (runMvp1 { instrs := [.li_ { rd := 5, imm := 7#32 }, .ret_ {}], labels := {} } ⟨{}, 0#32⟩ 10).cycles = 623 ∧
     (runMvp1 { instrs := [.li_ { rd := 5, imm := 7#32 }, .ret_ {}], labels := {} } ⟨{}, 0#32⟩ 10).steps = 2 := by
   decide
+
+/-! ### MVP-3 (work package MVP3)
+
+`Model.Mvp3` is the cycle-accurate model of proc/mvp3 (tied to the Go machine on every run: status, CYCLE COUNT and
+final state, the `m3=` field).  Its accounting per started iteration: fetch = `L1Access` on an L1I hit, `MemoryAccess`
+on a miss; decode = `cyclesDecode`; memory read = `L1Access`, plus `MemoryAccess` on an L1D miss; execute = `Cycles()`;
+write-back = `RegisterAccess`, or for a store `L1Access` (all bytes cached) / `MemoryAccess`; after the loop one
+`MemoryAccess` per resident L1D line (`Proofs.Mvp3.step_sim` relates the terms to MVP-1's, `Proofs.Mvp3Cycles` bounds
+them).  Both bounds hold for EVERY program, initial state and fuel. -/
+
+/-- **lower bound and positivity, MVP-3**: the cycle count is at least the number of executed instructions -/
+theorem mvp3_lower_bound (app : App) (a : Arch) (fuel : Nat) :
+    ((Model.Mvp3.runMvp3 app a fuel).steps : Int) ≤ (Model.Mvp3.runMvp3 app a fuel).cycles :=
+  (Proofs.Mvp3Cycles.runMvp3_cycles app a fuel).1
+
+/-- **upper bound, MVP-3**: per executed instruction at most fetch miss + decode + L1D miss + slowest execute + store
+miss, plus the final flush of at most 16 lines -/
+theorem mvp3_upper_bound (app : App) (a : Arch) (fuel : Nat) :
+    (Model.Mvp3.runMvp3 app a fuel).cycles ≤
+      (Gen.Latency.MemoryAccess + Gen.Consts.mvp3.cyclesDecode + (Gen.Latency.L1Access + Gen.Latency.MemoryAccess) + 50 +
+        Gen.Latency.MemoryAccess) * (Model.Mvp3.runMvp3 app a fuel).steps + 16 * Gen.Latency.MemoryAccess :=
+  (Proofs.Mvp3Cycles.runMvp3_cycles app a fuel).2
+
+/-- the constants of proc/mvp3 the model reads, pinned (a changed constant re-opens this) -/
+theorem mvp3_constants :
+    Gen.Consts.mvp3.cyclesDecode = 1 ∧ Gen.Consts.mvp3.l1DCacheLineSize = 64 ∧ Gen.Consts.mvp3.l1DCacheSize = 1024 ∧
+    Gen.Consts.mvp3.l1ICacheLineSize = 64 ∧ Gen.Consts.mvp3.l1ICacheSize = 1024 := by decide
+
+/-- Non-vacuity: `li; ret` on MVP-3 costs 309+1+1+1 (fetch miss) and 3+1+1 (fetch hit in the pc line), no flush. -/
+example :
+    (Model.Mvp3.runMvp3 { instrs := [.li_ { rd := 5, imm := 7#32 }, .ret_ {}], labels := {} } ⟨{}, 0#32⟩ 10).cycles = 317 ∧
+    (Model.Mvp3.runMvp3 { instrs := [.li_ { rd := 5, imm := 7#32 }, .ret_ {}], labels := {} } ⟨{}, 0#32⟩ 10).steps = 2 := by
+  decide +kernel
 
 end Props.C12
